@@ -257,5 +257,9 @@ def check(s):
              detail=f"{o['policy_calls']} calls", necessary_for="the stored log-probability belongs to the stored sample, not to a second draw")
         s.eq("C08.8", o["con"], o["nz"], o["row"].get("values", NONE), o["ref"]["value"],
              "the stored value (centre of the PPO2 value clip) is the value item of that same call", o["loc"], key="old-value-source")
-    for r, n in (("C08.1", 8), ("C08.3", 4), ("C08.4", 12), ("C08.5", 20), ("C08.6", 30), ("C08.7", 40), ("C08.8", 8)):
+    # C08.9 configuration wiring of the learners: each coefficient / flag given to the constructor is the like-named attribute the loss reads
+    from .util import ctor_wiring
+    for cls in ("PPO", "A2C", "REINFORCE"):
+        ctor_wiring(s, "C08.9", cls, necessary_for="the objective is evaluated with the configured clip range, coefficients and flags")
+    for r, n in (("C08.1", 8), ("C08.3", 4), ("C08.4", 12), ("C08.5", 20), ("C08.6", 30), ("C08.7", 40), ("C08.8", 8), ("C08.9", 20)):
         s.floor(r, n)
